@@ -263,10 +263,18 @@ class FacadeSpace(Subspace):
         haskey = [not (k is None or (isinstance(k, float) and k != k)) for k in kcol.tolist()]
         # pandas side on a positional index so that its (label, index) output can be re-aligned
         pf = frame.reset_index(drop=True) if "level" not in pkw() else None
-        for m in ROLLS:
+        # (window, min_periods as given to the facade, effective minimum): None means 'window';
+        # 0 is legal too (at a row holding a value it cannot differ from 1)
+        for w, mp, eff in ((2, 1, 1), (2, None, 2), (2, 0, 1), (3, 2, 2)):
+          for m in ROLLS:
+            if mp == 0 and m == "mean":
+                continue  # the core engine does not define the mean of an empty window
             res.execs += 1
-            got, err = self._run(lambda: getattr(fast().rolling(2, 1), m)())
-            tag = f"rolling(2,1).{m} {tag0}"
+            if mp is None:
+                got, err = self._run(lambda: getattr(fast().rolling(w), m)())
+            else:
+                got, err = self._run(lambda: getattr(fast().rolling(w, mp), m)())
+            tag = f"rolling({w},{mp}).{m} {tag0}"
             if err:
                 res.fail("total", f"{tag}: raised {err}")
                 continue
@@ -283,7 +291,7 @@ class FacadeSpace(Subspace):
                 a = gbh.norm_values(gf[c])[0]
                 for lab in set(k for k, h in zip(kcol.tolist(), haskey) if h):
                     pos = [i for i in range(n) if haskey[i] and kcol[i] == lab]
-                    ref = getattr(pd.Series(col[pos]).rolling(2, min_periods=1), m)().tolist()
+                    ref = getattr(pd.Series(col[pos]).rolling(w, min_periods=eff), m)().tolist()
                     for i, r in zip(pos, ref):
                         if col[i] != col[i]:
                             continue
